@@ -57,7 +57,7 @@ def run(ctx):
         totals["ev1"] = n
     # (c) sampled: 2 events, heartbeat, second source goroutine, flush / heartbeat failures, probes, every configuration
     s, n = sc.generate(ctx, "sim", sc.gen_cfg("sim", MaxEvents=2, MaxTerm=1, MaxSrcTerm=1, MaxHB=1, UseD="TRUE", MaxProbes=1, CfgOK="CfgAll"),
-                       rng, simulate=2600 if quick else 10000, depth=400, timeout=2400, cap=1300 if quick else None)
+                       rng, simulate=2600 if quick else 10000, depth=400, timeout=2400, cap=1100 if quick else None)
     batches.append(("sim", s))
     totals["sim"] = n
     # (d) sampled: the same with 2 client-side terminators (e.g. flush failure + unsubscribe, remove client + shutdown)
@@ -82,6 +82,7 @@ def run(ctx):
                 "parked goroutines with the environment's choices) forced on the real resolver and its recorded event stream validated by TLC; "
                 "distinct by (configuration, release sequence); non-trivial = the running goroutine changes at least 3 times",
         "generated_behaviours": totals,
+        "replayed_per_family": tot["per_family"],
         "samples": tot["samples"][:3],
         "unrealised_schedules": tot["unreal"],
         "invariants_on_traces": sc.INVS[PROP],
